@@ -23,6 +23,7 @@ import (
 	"github.com/ethereum/go-ethereum/trie/trienode"
 	"github.com/holiman/uint256"
 	"pgregory.net/rapid"
+	"verif.local/kit/refrlp"
 	"verif.local/kit/reftrie"
 	vs "verif.local/kit/stat"
 )
@@ -100,8 +101,11 @@ type c21Machine struct {
 	committed  map[common.Hash]bool
 	storCache  map[string]*reftrie.Result
 	capFlushed map[common.Hash]bool
+	parents    map[common.Hash]map[common.Hash]struct{} // child -> nodes referring to it (any version)
+	indexed    map[common.Hash]bool
 	block      uint64
 	trace      []string
+	orphans    int // cached unreachable nodes tolerated because persistence cut their bookkeeping
 
 	sharedDeref   bool // a root was dereferenced while sharing a node with another live root
 	capThenCommit bool // a commit needed a node that an earlier Cap had evicted
@@ -241,6 +245,36 @@ func (m *c21Machine) mutate(w c21World) (c21World, string) {
 	return nw, strings.Join(notes, ",")
 }
 
+// genesis draws a starting world: several accounts, some of which share one of two
+// storage templates (same storage trie under several account leaves).
+func (m *c21Machine) genesis() c21World {
+	rt := m.rt
+	w := c21World{}
+	templates := make([]map[string][]byte, 2)
+	for i := range templates {
+		templates[i] = map[string][]byte{}
+		for j, n := 0, rapid.IntRange(1, 4).Draw(rt, "tmplSlots"); j < n; j++ {
+			sk := c21SlotKeys[rapid.IntRange(0, len(c21SlotKeys)-1).Draw(rt, "slot")]
+			templates[i][sk] = c21Values[rapid.IntRange(0, len(c21Values)-1).Draw(rt, "val")]
+		}
+	}
+	n := rapid.IntRange(2, 6).Draw(rt, "accounts")
+	for i := 0; i < n; i++ {
+		k := c21AcctKeys[rapid.IntRange(0, len(c21AcctKeys)-1).Draw(rt, "newAcct")]
+		a := &c21Acct{nonce: uint64(rapid.IntRange(0, 2).Draw(rt, "nonce")), storage: map[string][]byte{}}
+		if t := rapid.IntRange(0, 3).Draw(rt, "tmpl"); t < 2 {
+			for sk, sv := range templates[t] {
+				a.storage[sk] = sv
+			}
+		} else if t == 2 {
+			sk := c21SlotKeys[rapid.IntRange(0, len(c21SlotKeys)-1).Draw(rt, "slot")]
+			a.storage[sk] = c21Values[rapid.IntRange(0, len(c21Values)-1).Draw(rt, "val")]
+		}
+		w[k] = a
+	}
+	return w
+}
+
 // opUpdate derives a new version from a live parent (or from the empty state, or
 // by returning to the content of an earlier version) and feeds the resulting dirty
 // node sets to the database exactly as core/state does: storage tries first, the
@@ -265,7 +299,9 @@ func (m *c21Machine) opUpdate() {
 		nw   c21World
 		note string
 	)
-	if len(m.order) > 1 && rapid.IntRange(0, 5).Draw(rt, "revert") == 0 {
+	if len(lives) == 0 {
+		nw, note = m.genesis(), "genesis"
+	} else if len(m.order) > 1 && rapid.IntRange(0, 5).Draw(rt, "revert") == 0 {
 		// return to the content of an earlier version (live or not): re-creates its nodes
 		old := m.versions[m.order[rapid.IntRange(0, len(m.order)-1).Draw(rt, "revertTo")]]
 		nw, note = old.world.clone(), fmt.Sprintf("revert->v%d", old.seq)
@@ -376,6 +412,7 @@ func (m *c21Machine) opUpdate() {
 		v = &c21Version{world: nw, root: root, nodes: nodes, seq: len(m.order)}
 		m.versions[root] = v
 		m.order = append(m.order, root)
+		m.indexParents(nodes)
 	}
 	// the chain keeps every new state alive with a meta-root reference
 	m.doReference(root)
@@ -424,7 +461,12 @@ func (m *c21Machine) opDereference() {
 	if len(roots) == 0 {
 		return
 	}
-	r := roots[rapid.IntRange(0, len(roots)-1).Draw(m.rt, "derefRoot")]
+	// like the chain's trie gc: mostly the oldest referenced root
+	idx := 0
+	if rapid.IntRange(0, 2).Draw(m.rt, "derefAny") == 0 {
+		idx = rapid.IntRange(0, len(roots)-1).Draw(m.rt, "derefRoot")
+	}
+	r := roots[idx]
 	times := 1
 	if rapid.IntRange(0, 2).Draw(m.rt, "derefAll") == 0 {
 		times = m.refs[r]
@@ -501,11 +543,129 @@ func (m *c21Machine) opCommit() {
 		if got := rawdb.ReadLegacyTrieNode(m.db.diskdb, h); !bytes.Equal(got, blob) {
 			m.fatalf("Commit(v%d): node %x not persisted correctly (got %d bytes)", m.versions[r].seq, h, len(got))
 		}
-		if _, cached := m.db.dirties[h]; cached {
-			m.fatalf("Commit(v%d): committed node %x still in the dirty cache", m.versions[r].seq, h)
-		}
 	}
 	m.trace = append(m.trace, fmt.Sprintf("K[v%d]", m.versions[r].seq))
+}
+
+// c21Children extracts, with the reference RLP decoder, the hashes a node blob
+// refers to: child nodes of branch/extension nodes (through embedded nodes) and,
+// for account leaves, the storage root (hashdb's "external" child).
+func c21Children(blob []byte) []common.Hash {
+	it, err := refrlp.Decode(blob)
+	if err != nil {
+		return nil
+	}
+	var out []common.Hash
+	var walk func(it refrlp.Item)
+	ref := func(c refrlp.Item) {
+		if c.IsList {
+			walk(c)
+		} else if len(c.Str) == 32 {
+			out = append(out, common.BytesToHash(c.Str))
+		}
+	}
+	walk = func(it refrlp.Item) {
+		if !it.IsList {
+			return
+		}
+		switch len(it.List) {
+		case 17:
+			for i := 0; i < 16; i++ {
+				ref(it.List[i])
+			}
+		case 2:
+			key := it.List[0].Str
+			if len(key) > 0 && key[0]&0x20 != 0 { // leaf
+				acc, err := refrlp.Decode(it.List[1].Str)
+				if err == nil && acc.IsList && len(acc.List) == 4 && len(acc.List[2].Str) == 32 {
+					if root := common.BytesToHash(acc.List[2].Str); root != types.EmptyRootHash {
+						out = append(out, root)
+					}
+				}
+			} else {
+				ref(it.List[1])
+			}
+		}
+	}
+	walk(it)
+	return out
+}
+
+func (m *c21Machine) indexParents(nodes map[common.Hash][]byte) {
+	for h, blob := range nodes {
+		if m.indexed[h] {
+			continue
+		}
+		m.indexed[h] = true
+		for _, c := range c21Children(blob) {
+			if m.parents[c] == nil {
+				m.parents[c] = map[common.Hash]struct{}{}
+			}
+			m.parents[c][h] = struct{}{}
+		}
+	}
+}
+
+// unexplainedOrphans returns the cached nodes that are unreachable from every
+// referenced root and cannot be attributed to persistence: reference counts are
+// only maintained between cached nodes, so once a parent has been written to disk
+// (Cap, Commit) a child that stays cached, or is inserted again, is no longer
+// collectable through that parent. Such a node is tolerated if one of its parents
+// is on disk, or is itself a tolerated orphan that still holds a count on it. With
+// nothing on disk this is exactly "no unreachable node stays cached".
+func (m *c21Machine) unexplainedOrphans(reachable map[common.Hash]struct{}) (bad []common.Hash, tolerated int) {
+	orphans := map[common.Hash]bool{}
+	for h := range m.db.dirties {
+		if _, ok := reachable[h]; !ok {
+			orphans[h] = false
+		}
+	}
+	if len(orphans) == 0 {
+		return nil, 0
+	}
+	for changed := true; changed; {
+		changed = false
+		for h, ok := range orphans {
+			if ok {
+				continue
+			}
+			for p := range m.parents[h] {
+				if explained, isOrphan := orphans[p]; (isOrphan && explained) || m.onDisk(p) {
+					orphans[h], changed = true, true
+					break
+				}
+			}
+		}
+	}
+	for h, ok := range orphans {
+		if ok {
+			tolerated++
+		} else {
+			bad = append(bad, h)
+		}
+	}
+	sort.Slice(bad, func(i, j int) bool { return bytes.Compare(bad[i][:], bad[j][:]) < 0 })
+	return bad, tolerated
+}
+
+// explain lists the nodes that refer to h and where they are now.
+func (m *c21Machine) explain(h common.Hash) string {
+	var sb strings.Builder
+	var ps []common.Hash
+	for p := range m.parents[h] {
+		ps = append(ps, p)
+	}
+	sort.Slice(ps, func(i, j int) bool { return bytes.Compare(ps[i][:], ps[j][:]) < 0 })
+	for _, ph := range ps {
+		n, cached := m.db.dirties[ph]
+		par := -1
+		if cached {
+			par = int(n.parents)
+		}
+		fmt.Fprintf(&sb, "  parent %x: cached=%v parents=%d onDisk=%v capFlushed=%v\n", ph[:4], cached, par, m.onDisk(ph), m.capFlushed[ph])
+	}
+	fmt.Fprintf(&sb, "  node itself: onDisk=%v capFlushed=%v", m.onDisk(h), m.capFlushed[h])
+	return sb.String()
 }
 
 // check evaluates the invariants after a step.
@@ -537,17 +697,21 @@ func (m *c21Machine) check() {
 		}
 	}
 	// (2) nothing reachable only from removed roots stays cached
-	for h := range db.dirties {
-		if _, ok := reachable[h]; !ok {
-			owner := "no version"
-			for _, r := range m.order {
-				if _, ok := m.versions[r].nodes[h]; ok {
-					owner = fmt.Sprintf("v%d(refs=%d)", m.versions[r].seq, m.refs[r])
-					break
-				}
+	bad, tolerated := m.unexplainedOrphans(reachable)
+	if len(bad) > 0 {
+		h := bad[0]
+		owner := "no version"
+		for _, r := range m.order {
+			if _, ok := m.versions[r].nodes[h]; ok {
+				owner = fmt.Sprintf("v%d(refs=%d)", m.versions[r].seq, m.refs[r])
+				break
 			}
-			m.fatalf("garbage: node %x (parents=%d, of %s) is cached but unreachable from every referenced root", h, db.dirties[h].parents, owner)
 		}
+		m.fatalf("garbage: node %x (parents=%d, of %s) is cached, unreachable from every referenced root, and none of the nodes referring to it was ever persisted (%d such nodes)\n%s",
+			h, db.dirties[h].parents, owner, len(bad), m.explain(h))
+	}
+	if tolerated > m.orphans {
+		m.orphans = tolerated
 	}
 	// (3) reported size matches the cached contents
 	var want common.StorageSize
@@ -575,7 +739,9 @@ func (m *c21Machine) check() {
 			m.fatalf("flush list cycles at %x", cur)
 		}
 		seen[cur] = struct{}{}
-		if n.flushPrev != prev {
+		// The head's back link is never read by the database (it may be stale after
+		// the cache ran empty); every other back link is.
+		if cur != db.oldest && n.flushPrev != prev {
 			m.fatalf("flush list back link of %x is %x, want %x", cur, n.flushPrev, prev)
 		}
 		prev, cur = cur, n.flushNext
@@ -597,16 +763,19 @@ func TestVerifC21Machine(t *testing.T) {
 			rt: rt, db: New(disk, nil),
 			versions: map[common.Hash]*c21Version{}, refs: map[common.Hash]int{}, committed: map[common.Hash]bool{},
 			storCache: map[string]*reftrie.Result{}, capFlushed: map[common.Hash]bool{},
+			parents: map[common.Hash]map[common.Hash]struct{}{}, indexed: map[common.Hash]bool{},
 		}
-		maxSteps := 18
+		maxSteps := 28
 		if vs.Thorough() {
-			maxSteps = 30
+			maxSteps = 45
 		}
-		steps := rapid.IntRange(4, maxSteps).Draw(rt, "steps")
+		steps := rapid.IntRange(6, maxSteps).Draw(rt, "steps")
 		counts := map[string]int{}
 		for i := 0; i < steps; i++ {
 			op := rapid.SampledFrom([]string{"update", "update", "update", "update", "update", "reference", "deref", "deref", "deref", "cap", "commit"}).Draw(rt, "op")
 			if len(m.liveRoots()) == 0 {
+				op = "update"
+			} else if op == "deref" && len(m.referencedRoots()) <= 1 && rapid.IntRange(0, 2).Draw(rt, "keepLast") != 0 {
 				op = "update"
 			}
 			switch op {
@@ -640,6 +809,9 @@ func TestVerifC21Machine(t *testing.T) {
 		}
 		if m.reinjected {
 			c.Class("evicted node inserted again")
+		}
+		if m.orphans > 0 {
+			c.Class("tolerated orphan (a parent was persisted)")
 		}
 		for _, op := range []string{"cap", "commit", "reference"} {
 			if counts[op] > 0 {
